@@ -8,7 +8,7 @@ for d in sorted(glob.glob('/verif/seeded/*/meta.json')):
     patch = open(os.path.join(os.path.dirname(d), 'patch.diff')).read()
     files = sorted({l[6:].split('/')[-1] for l in patch.splitlines() if l.startswith('+++ b/')})
     det = ', '.join(f"{c}{'' if ok else ' (missed)'}" for c, ok in m['detected_by'].items())
-    first = next(iter(m['first_violation'].values()), '').strip()
+    first = next((v for v in m['first_violation'].values() if v.strip().startswith('C') and 'tier=' not in v), '').strip()
     first = first.split(' (shrink')[0][:150].replace('|', '/')
     rows.append(f"| {name} | {', '.join(files)} | {det} | {first} |")
 print('| seeded change | file(s) | caught by (quick tier) | first violation reported |')
